@@ -7,13 +7,17 @@ import TensorModel.Props.C15
   * the masked arg kernel `argMaskedGo` (the loop of `Arg{max,min}Masked<T>`) equals, for every length, the
     specification `specArgValid` (fold over the valid elements), and that fold returns the *first* index of
     the extreme among the valid elements; a lane without valid element: the kernel answers 0, the spec `none`;
-  * flat and per-axis routes agree on a single lane; the per-axis route hands the kernel the raw mask instead of
-    the lane's bits (F110): `_partial` under the guard "every lane's bits equal the raw prefix", `_full_fails`;
-  * setters: exactly the named bit changes, elements untouched, refusals; `SetMaskAt`/`SetMaskAtIndex` on a tensor
-    without mask do nothing (F112): `_partial` / `_full_fails`; a view's bit is the parent's bit shifted by the
-    window start; `ResetMask` fills the window (F113): `_partial` / `_full_fails`;
+  * the flat route of a masked tensor reads the raw window only for contiguous row-major tensors and the iterator's listing
+    elsewhere, and equals the specification on both (`engArgMasked_flat_spec`; F111 repaired);
+  * flat and per-axis routes agree on a single lane; the per-axis route judges every lane by its own mask bits and
+    equals the specification lane by lane (`argIterMasked_lanes`, `argIterMasked_eq_spec`; F110 repaired);
+  * setters: exactly the named bit changes, elements untouched, refusals — with or without mask: `SetMaskAt`/`SetMaskAtIndex`
+    on a tensor without mask validate and make the mask on demand (`setMaskAt_sets`, `setMaskAtIndex_sets`, `makeMask_masked`;
+    F112 repaired); a view's bit is the parent's bit shifted by the window start; `ResetMask` writes exactly the bits of the
+    tensor's own elements, also on a view with gaps, and makes a tensor without mask masked (`resetMask_frame`,
+    `resetMask_unmasked`; F113 repaired);
   * `MaskFromSlice`: the per-type loop tests its bound after the store;
-  * `WithMask` before the shape is known drops the mask (F115): `_partial` / `_full_fails`.
+  * `WithMask` before the shape or the backing is known drops the mask (F115, narrowed): `_partial` / `_full_fails`.
 -/
 namespace TM.C15ops
 open TM TM.Mask TM.MaskOps
@@ -240,14 +244,6 @@ theorem strictWeak_int_lt : StrictWeak (fun a b : Int => decide (a < b)) :=
 theorem chunks_one {β} (n : Nat) (l : List β) : Red.chunks n 1 l = [l.take n] := by
   simp [Red.chunks]
 
-/-- **flat vs per-axis agreement** on a single lane (a vector reduced along its only axis): the per-axis route
-    calls the kernel once, with the same data and the same raw mask as the flat route. -/
-theorem argIterMasked_single_lane (isMax isFloat : Bool) (cells : List Red.Key) (raw : List Bool)
-    (h : cells ≠ []) :
-    argIterMasked isMax isFloat cells.length cells raw = [argMaskedK isMax isFloat cells raw] := by
-  have hpos : 0 < cells.length := List.length_pos_iff.mpr h
-  simp [argIterMasked, Red.argChunks, Nat.div_self hpos, chunks_one]
-
 theorem zip_take_left {β γ} : ∀ (a : List β) (b : List γ) (n : Nat), a.length ≤ n → a.zip (b.take n) = a.zip b
   | [], _, _, _ => by simp
   | _ :: _, [], _, _ => by simp
@@ -261,121 +257,126 @@ theorem argMaskedK_take (isMax isFloat : Bool) (lane : List Red.Key) (raw : List
     (h : lane.length ≤ n) : argMaskedK isMax isFloat lane (raw.take n) = argMaskedK isMax isFloat lane raw := by
   simp [argMaskedK, zip_take_left lane raw n h]
 
-/-- **F110, guarded statement.** `Arg{max,min}IterMasked` computes what its call site means (every lane judged
-    by its own mask bits) whenever every lane's bits coincide with the first `lastSize` entries of the raw mask —
-    in particular for a single lane in storage order, and for masks that repeat with period `lastSize`. -/
-theorem argIterMasked_partial (isMax isFloat : Bool) (lastSize : Nat) (cells : List Red.Key) (laneMask raw : List Bool)
-    (hl : ∀ lane ∈ Red.argChunks lastSize cells, lane.length ≤ lastSize)
-    (hm : laneChunks lastSize laneMask = (Red.argChunks lastSize cells).map (fun _ => raw.take lastSize)) :
-    argIterMasked isMax isFloat lastSize cells raw = argIterMaskedIntended isMax isFloat lastSize cells laneMask := by
-  unfold argIterMasked argIterMaskedIntended
-  rw [hm]
-  generalize Red.argChunks lastSize cells = lanes at hl
-  induction lanes with
-  | nil => rfl
-  | cons lane rest ih =>
-    simp only [List.map_cons, List.zipWith_cons_cons, List.cons.injEq]
-    refine ⟨(argMaskedK_take isMax isFloat lane raw lastSize (hl lane (List.mem_cons_self ..))).symm, ?_⟩
-    exact ih (fun l hl' => hl l (List.mem_cons_of_mem _ hl'))
+/-- **flat vs per-axis agreement** on a single lane (a vector reduced along its only axis, data and mask bits of the
+    same length): the per-axis route calls the kernel once, with the same data and the same bits as the flat route. -/
+theorem argIterMasked_single_lane (isMax isFloat : Bool) (cells : List Red.Key) (bits : List Bool)
+    (h : cells ≠ []) (hl : bits.length = cells.length) :
+    argIterMasked isMax isFloat cells.length cells bits = [argMaskedK isMax isFloat cells bits] := by
+  have hpos : 0 < cells.length := List.length_pos_iff.mpr h
+  have hb : bits.length / cells.length = 1 := by rw [hl]; exact Nat.div_self hpos
+  simp only [argIterMasked, laneChunks, Red.argChunks, hb, Nat.div_self hpos, chunks_one, List.zipWith_cons_cons,
+    List.zipWith_nil_left, List.cons.injEq, and_true]
+  rw [List.take_length]
+  exact argMaskedK_take isMax isFloat cells bits cells.length (Nat.le_refl _)
 
-/-- **F110, the unguarded statement is false**: two lanes of two elements, the second lane's own bits differ
-    from the raw prefix. -/
-theorem argIterMasked_full_fails :
-    ¬ ∀ (isMax isFloat : Bool) (lastSize : Nat) (cells : List Red.Key) (mask : List Bool),
-        argIterMasked isMax isFloat lastSize cells mask = argIterMaskedIntended isMax isFloat lastSize cells mask := by
-  intro h
-  have := h true false 2 [.num 1, .num 2, .num 5, .num 3] [false, true, true, false]
-  revert this
-  decide
+theorem zipWith_congr_mem {β γ δ} (f g : β → γ → δ) : ∀ (l1 : List β) (l2 : List γ),
+    (∀ p ∈ l1.zip l2, f p.1 p.2 = g p.1 p.2) → List.zipWith f l1 l2 = List.zipWith g l1 l2
+  | [], _, _ => by simp
+  | _ :: _, [], _ => by simp
+  | a :: l1, b :: l2, h => by
+    simp only [List.zipWith_cons_cons, List.cons.injEq]
+    exact ⟨h (a, b) (by simp), zipWith_congr_mem f g l1 l2 (fun p hp => h p (by simp [hp]))⟩
+
+/-- **every lane is judged by its own mask bits** (unguarded; before the repair of `Arg{max,min}IterMasked` this held
+    only when every lane's bits coincided with the first `lastSize` entries of the raw mask): the `k`-th result is the
+    kernel on the `k`-th run of `lastSize` elements and the `k`-th run of `lastSize` mask bits, both in iterator order. -/
+theorem argIterMasked_lanes (isMax isFloat : Bool) (lastSize : Nat) (cells : List Red.Key) (laneMask : List Bool) :
+    argIterMasked isMax isFloat lastSize cells laneMask =
+      List.zipWith (argMaskedK isMax isFloat) (Red.argChunks lastSize cells) (laneChunks lastSize laneMask) := rfl
+
+/-- **per-axis Argmax/Argmin of a masked tensor = specification, lane by lane** (every number of lanes, every lane
+    length): when no valid element triggers the float early return, the result of lane `k` is the index the fold over
+    the valid elements of lane `k` selects — the first index of the extreme among them (`specArgValid_row`) — and 0
+    for a lane without valid element, where the specification is silent. -/
+theorem argIterMasked_eq_spec (isMax isFloat : Bool) (lastSize : Nat) (cells : List Red.Key) (laneMask : List Bool)
+    (hstop : ∀ q ∈ (Red.argChunks lastSize cells).zip (laneChunks lastSize laneMask),
+      ∀ p ∈ q.1.zip q.2, p.2 = false → stopK isMax isFloat p.1 = false) :
+    argIterMasked isMax isFloat lastSize cells laneMask =
+      List.zipWith (fun lane bits => (specArgValid (betterK isMax) (lane.zip bits)).getD 0)
+        (Red.argChunks lastSize cells) (laneChunks lastSize laneMask) := by
+  unfold argIterMasked
+  apply zipWith_congr_mem
+  intro q hq
+  exact argMaskedGo_eq_spec _ _ _ (hstop q hq)
 
 /-! ## the setters -/
 
-/-- **SetMaskAtIndex: exactly the named bit.** On a masked tensor bit `i` of the mask window becomes `v`, every other
-    bit of the window keeps its value, and the element storage is untouched. -/
-theorem setMaskAtIndex_frame (s s' : St) (t : Dense) (m : Win) (v : Bool) (i : Int)
-    (hm : t.mask = some m) (hk : t.isMasked = true) (h : setMaskAtIndex s t v i = .ok s') :
-    s'.mget m i = .ok v ∧ (∀ j, j ≠ i → s'.mget m j = s.mget m j) ∧ s'.heap = s.heap := by
-  simp only [setMaskAtIndex, hk, hm, Bool.not_true, Bool.false_eq_true, if_false] at h
-  refine ⟨C15.St.mget_mset_same h, fun j hj => C15.St.mget_mset_other h hj, ?_⟩
-  obtain ⟨b, _, _, _, _, rfl⟩ := C15.St.mset_ok h
-  rfl
+/-- the store on a masked tensor is exactly `t.mask[i] = v` -/
+theorem storeMaskBit_masked (s : St) (t : Dense) (m : Win) (v : Bool) (i : Int)
+    (hm : t.mask = some m) (hk : t.isMasked = true) :
+    storeMaskBit s t v i = (s.mset m i v).map (fun s' => (s', t)) := by
+  simp only [storeMaskBit, hk, hm, Bool.not_true, Bool.false_and, Bool.false_eq_true, if_false, bind, Except.bind,
+    pure, Except.pure]
+  cases s.mset m i v <;> rfl
 
-/-- refusal: an index outside the mask window panics (Go's slice index check); nothing is written -/
-theorem setMaskAtIndex_oob (s : St) (t : Dense) (m : Win) (v : Bool) (i : Int)
-    (hm : t.mask = some m) (hk : t.isMasked = true) (hi : i < 0 ∨ i ≥ m.len) :
-    ∃ e, setMaskAtIndex s t v i = .error (.panic e) := by
-  simp only [setMaskAtIndex, hk, hm, Bool.not_true, Bool.false_eq_true, if_false, St.mset]
-  have : (decide (i < 0) || decide (i ≥ (m.len : Int))) = true := by
+theorem storeMaskBit_masked_ok {s s' : St} {t t' : Dense} {m : Win} {v : Bool} {i : Int}
+    (hm : t.mask = some m) (hk : t.isMasked = true) (h : storeMaskBit s t v i = .ok (s', t')) :
+    t' = t ∧ s.mset m i v = .ok s' := by
+  rw [storeMaskBit_masked s t m v i hm hk] at h
+  cases h1 : s.mset m i v with
+  | error e => rw [h1] at h; cases h
+  | ok s1 =>
+    rw [h1] at h
+    simp only [Except.map] at h
+    injection h with h; injection h with h2 h3
+    exact ⟨h3.symm, by rw [h2]⟩
+
+/-- **SetMaskAtIndex: exactly the named bit.** On a masked tensor bit `i` of the mask window becomes `v`, every other
+    bit of the window keeps its value, the tensor's metadata and the element storage are untouched. -/
+theorem setMaskAtIndex_frame (s s' : St) (t t' : Dense) (m : Win) (v : Bool) (i : Int)
+    (hm : t.mask = some m) (hk : t.isMasked = true) (h : setMaskAtIndex s t v i = .ok (s', t')) :
+    t' = t ∧ s'.mget m i = .ok v ∧ (∀ j, j ≠ i → s'.mget m j = s.mget m j) ∧ s'.heap = s.heap := by
+  unfold setMaskAtIndex at h
+  split at h
+  · cases h
+  · obtain ⟨ht, hs⟩ := storeMaskBit_masked_ok hm hk h
+    refine ⟨ht, C15.St.mget_mset_same hs, fun j hj => C15.St.mget_mset_other hs hj, ?_⟩
+    obtain ⟨b, _, _, _, _, rfl⟩ := C15.St.mset_ok hs
+    rfl
+
+/-- **refusal (unguarded: with or without mask)**: an index outside the data window is an error; nothing is written -/
+theorem setMaskAtIndex_oob (s : St) (t : Dense) (v : Bool) (i : Int) (hi : i < 0 ∨ i ≥ t.win.len) :
+    ∃ e, setMaskAtIndex s t v i = .error (.err e) := by
+  have : (decide (i < 0) || decide (i ≥ (t.win.len : Int))) = true := by
     rcases hi with hi | hi <;> simp [hi]
-  simp [this, throwPanic]
+  exact ⟨"SetMaskAtIndex: index out of range", by simp only [setMaskAtIndex, this, if_true, throwErr]⟩
 
 /-- **SetMaskAt: exactly the named bit.** On a masked tensor: the coordinates are resolved like those of `At`,
     `MaskAt` of the named coordinates becomes `v`, `MaskAt` of every coordinate with another storage offset and every
     element (by `At`) are unchanged. -/
-theorem setMaskAt_frame (s s' : St) (t : Dense) (m : Win) (v : Bool) (c : List Int) (i : Int)
+theorem setMaskAt_frame (s s' : St) (t t' : Dense) (m : Win) (v : Bool) (c : List Int) (i : Int)
     (hm : t.mask = some m) (hk : t.isMasked = true) (hl : c.length = t.dims)
-    (hi : ltoi t.shape t.strides c = .ok i) (h : setMaskAt s t v c = .ok s') :
-    maskAt s' t c = .ok v ∧
+    (hi : ltoi t.shape t.strides c = .ok i) (h : setMaskAt s t v c = .ok (s', t')) :
+    t' = t ∧ maskAt s' t c = .ok v ∧
     (∀ c' i', c'.length = t.dims → ltoi t.shape t.strides c' = .ok i' → i' ≠ i → maskAt s' t c' = maskAt s t c') ∧
     (∀ c', t.at_ s' c' = t.at_ s c') := by
   have hl' : (c.length != t.dims) = false := by simp [hl]
-  simp only [setMaskAt, hk, hm, hl', hi, Bool.not_true, Bool.false_eq_true, if_false, bind, Except.bind,
-    pure, Except.pure] at h
-  refine ⟨?_, ?_, ?_⟩
-  · simp [maskAt, hk, hm, hl, hi, bind, Except.bind, C15.St.mget_mset_same h]
+  simp only [setMaskAt, hl', hi, Bool.false_eq_true, if_false, bind, Except.bind] at h
+  obtain ⟨ht, hs⟩ := storeMaskBit_masked_ok hm hk h
+  refine ⟨ht, ?_, ?_, ?_⟩
+  · simp [maskAt, hk, hm, hl, hi, bind, Except.bind, C15.St.mget_mset_same hs]
   · intro c' i' hl2 hi2 hne
-    simp [maskAt, hk, hm, hl2, hi2, bind, Except.bind, C15.St.mget_mset_other h hne]
+    simp [maskAt, hk, hm, hl2, hi2, bind, Except.bind, C15.St.mget_mset_other hs hne]
   · intro c'
-    obtain ⟨b, _, _, _, _, rfl⟩ := C15.St.mset_ok h
+    obtain ⟨b, _, _, _, _, rfl⟩ := C15.St.mset_ok hs
     simp [Dense.at_, St.get]
 
-/-- refusals of `SetMaskAt` on a masked tensor: wrong arity, and whatever `At` refuses (out of range) -/
+/-- **refusals of `SetMaskAt` (unguarded: with or without mask)**: wrong arity, and whatever `At` refuses (out of range) -/
 theorem setMaskAt_refuses_arity (s : St) (t : Dense) (v : Bool) (c : List Int)
-    (hk : t.isMasked = true) (hl : c.length ≠ t.dims) : ∃ e, setMaskAt s t v c = .error (.err e) := by
+    (hl : c.length ≠ t.dims) : ∃ e, setMaskAt s t v c = .error (.err e) := by
   have hl' : (c.length != t.dims) = true := by simp [hl]
-  exact ⟨"dimMismatch", by simp [setMaskAt, hk, hl', throwErr, bind, Except.bind]⟩
+  exact ⟨"dimMismatch", by simp [setMaskAt, hl', throwErr, bind, Except.bind]⟩
 
 theorem setMaskAt_refuses_range (s : St) (t : Dense) (v : Bool) (c : List Int) (e : Err)
-    (hk : t.isMasked = true) (hl : c.length = t.dims) (hi : ltoi t.shape t.strides c = .error e) :
+    (hl : c.length = t.dims) (hi : ltoi t.shape t.strides c = .error e) :
     setMaskAt s t v c = .error e := by
   have hl' : (c.length != t.dims) = false := by simp [hl]
-  simp [setMaskAt, hk, hl', hi, bind, Except.bind, pure, Except.pure]
+  simp [setMaskAt, hl', hi, bind, Except.bind]
 
-/-- F112: on a tensor without mask both setters return at once — whatever the arguments -/
-theorem setters_unmasked_noop (s : St) (t : Dense) (v : Bool) (c : List Int) (i : Int) (hk : t.isMasked = false) :
-    setMaskAt s t v c = .ok s ∧ setMaskAtIndex s t v i = .ok s := by
-  simp [setMaskAt, setMaskAtIndex, hk, pure, Except.pure]
-
-/-- **F112, guarded statement**: on a masked tensor a successful `SetMaskAt(v, c)` makes `MaskAt(c) = v` -/
-theorem setMaskAt_sets_partial (s s' : St) (t : Dense) (m : Win) (v : Bool) (c : List Int)
-    (hm : t.mask = some m) (hk : t.isMasked = true) (h : setMaskAt s t v c = .ok s') : maskAt s' t c = .ok v := by
-  by_cases hl : c.length = t.dims
-  · cases hi : ltoi t.shape t.strides c with
-    | error e => rw [setMaskAt_refuses_range s t v c e hk hl hi] at h; cases h
-    | ok i => exact (setMaskAt_frame s s' t m v c i hm hk hl hi h).1
-  · obtain ⟨e, he⟩ := setMaskAt_refuses_arity s t v c hk hl
-    rw [he] at h; cases h
-
-/-- a one-dimensional tensor of two cells without mask (witness of F112) -/
-def unmaskedVec : Dense := { ap := { shape := [2], strides := [1], fin := true }, win := ⟨0, 0, 2, 2⟩, dt := "i" }
-
-/-- **F112, the unguarded statement is false**: on a tensor without mask `SetMaskAt(true, 0)` succeeds and
-    `MaskAt(0)` is still false. -/
-theorem setMaskAt_sets_full_fails :
-    ¬ ∀ (s s' : St) (t : Dense) (v : Bool) (c : List Int), setMaskAt s t v c = .ok s' → maskAt s' t c = .ok v := by
-  intro h
-  have hk : unmaskedVec.isMasked = false := by decide
-  have h1 := h {} {} unmaskedVec true [0] (setters_unmasked_noop {} unmaskedVec true [0] 0 hk).1
-  simp [maskAt, hk, pure, Except.pure] at h1
-
-/-- … and a malformed position is not refused there -/
-theorem setMaskAt_refusal_full_fails :
-    ¬ ∀ (s : St) (t : Dense) (v : Bool) (c : List Int), c.length ≠ t.dims → ∃ e, setMaskAt s t v c = .error (.err e) := by
-  intro h
-  have hk : unmaskedVec.isMasked = false := by decide
-  obtain ⟨e, he⟩ := h {} unmaskedVec true [0, 0, 0] (by decide)
-  rw [(setters_unmasked_noop {} unmaskedVec true [0, 0, 0] 0 hk).1] at he
-  cases he
+/-- clearing a bit of a tensor without mask changes nothing (nothing is masked there) -/
+theorem storeMaskBit_unmasked_clear (s : St) (t : Dense) (i : Int) (hk : t.isMasked = false) :
+    storeMaskBit s t false i = .ok (s, t) := by
+  simp [storeMaskBit, hk, pure, Except.pure]
 
 /-! ### views: which parent bit changes -/
 
@@ -398,9 +399,13 @@ theorem setMaskAtIndex_view_parent (s : St) (t v : Dense) (m mv : Win) (k : Nat)
     (hmv : v.mask = some mv) (hkv : v.isMasked = true)
     (hb : mv.buf = m.buf) (ho : mv.off = m.off + k) (hfit : k + mv.len ≤ m.len)
     (hi0 : 0 ≤ i) (hi1 : i < mv.len) :
-    setMaskAtIndex s v b i = s.mset m ((k : Int) + i) b := by
-  simp only [setMaskAtIndex, hkv, hmv, Bool.not_true, Bool.false_eq_true, if_false]
-  exact mset_shifted s m mv k i b hb ho hi0 hi1 hfit
+    setMaskAtIndex s v b i = (s.mset m ((k : Int) + i) b).map (fun s' => (s', v)) := by
+  have hlen : mv.len = v.win.len := by
+    simp only [Dense.isMasked, hmv] at hkv; simpa using hkv
+  have hr : (decide (i < 0) || decide (i ≥ (v.win.len : Int))) = false := by
+    simp only [Bool.or_eq_false_iff, decide_eq_false_iff_not]; omega
+  simp only [setMaskAtIndex, hr, Bool.false_eq_true, if_false]
+  rw [storeMaskBit_masked s v mv b i hmv hkv, mset_shifted s m mv k i b hb ho hi0 hi1 hfit]
 
 /-! ### ResetMask -/
 
@@ -437,28 +442,264 @@ theorem zip_foldlM_heap (m : Win) : ∀ (l : List (Bool × Int)) (s s' : St),
         rfl
       rw [zip_foldlM_heap m l s1 s' h, hheap]
 
-/-- **ResetMask on a masked tensor (what the code does)**: every position of the mask *window* holds the fill value
-    afterwards (`false` without argument), the tensor's metadata and the element storage are untouched. -/
-theorem resetMask_masked (s s' : St) (t t' : Dense) (m : Win) (val : Option Bool)
+/-! ### tensors without mask: the setters make one (F112 repaired) -/
+
+theorem memsetMask_heap (s s' : St) (m : Win) (v : Bool) (h : memsetMask s m v = .ok s') : s'.heap = s.heap := by
+  rw [memsetMask_eq_writeMask] at h
+  exact zip_foldlM_heap m _ s s' h
+
+theorem memsetMask_read (s s' : St) (m : Win) (v : Bool) (h : memsetMask s m v = .ok s') (j : Nat) (hj : j < m.len) :
+    s'.mget m (j : Int) = .ok v := by
+  rw [memsetMask_eq_writeMask] at h
+  exact C15.writeMask_read s s' m _ h (by simp) j _ (by simp [hj])
+
+theorem maskSize_data (t : Dense) (h : t.win.len ≠ 0) : maskSize t = t.win.len := by simp [maskSize, h]
+theorem maskSize_noData (t : Dense) (h : t.win.len = 0) : maskSize t = (totalSize t.shape).toNat := by simp [maskSize, h]
+
+theorem mget_fresh (s : St) (n j : Nat) (hj : j < n) :
+    (s.allocMask (Array.replicate n false)).1.mget ⟨s.mheap.size, 0, n, n⟩ (j : Int) = .ok false := by
+  have hr : (decide ((j : Int) < 0) || decide ((j : Int) ≥ ((n : Nat) : Int))) = false := by
+    simp only [Bool.or_eq_false_iff, decide_eq_false_iff_not]; omega
+  simp only [St.mget, St.allocMask, hr, Bool.false_eq_true, if_false]
+  simp [hj]
+
+/-- **`makeMask` on a tensor with data**: the tensor becomes masked — a mask window as long as the data window (what
+    `IsMasked` compares with; also for a view whose window has gaps), every bit clear — nothing else changes. -/
+theorem makeMask_masked (s s1 : St) (t t1 : Dense) (hw : t.win.len ≠ 0) (h : makeMask s t = .ok (s1, t1)) :
+    ∃ m, t1 = { t with mask := some m } ∧ m.len = t.win.len ∧ s1.heap = s.heap ∧
+      (∀ j : Nat, j < m.len → s1.mget m (j : Int) = .ok false) := by
+  have hsz : maskSize t = t.win.len := maskSize_data t hw
+  unfold makeMask at h
+  simp only [hsz] at h
+  cases hm : t.mask with
+  | none =>
+    simp only [hm, hw, beq_iff_eq, if_false, pure, Except.pure] at h
+    injection h with h; injection h with h1 h2
+    subst h1; subst h2
+    exact ⟨_, rfl, rfl, rfl, fun j hj => mget_fresh s _ j hj⟩
+  | some m0 =>
+    simp only [hm, bind, Except.bind, pure, Except.pure] at h
+    generalize (if m0.len ≥ t.win.len then { m0 with len := t.win.len } else m0) = m1 at h
+    split at h
+    · injection h with h; injection h with h1 h2
+      subst h1; subst h2
+      exact ⟨_, rfl, rfl, rfl, fun j hj => mget_fresh s _ j hj⟩
+    · cases hms : memsetMask s { m1 with len := t.win.len } false with
+      | error e => rw [hms] at h; cases h
+      | ok s2 =>
+        rw [hms] at h
+        injection h with h; injection h with h1 h2
+        subst h1; subst h2
+        exact ⟨_, rfl, rfl, memsetMask_heap _ _ _ _ hms, fun j hj => memsetMask_read _ _ _ _ hms j hj⟩
+
+theorem isMasked_withMask (t : Dense) (m : Win) (h : m.len = t.win.len) : ({ t with mask := some m } : Dense).isMasked = true := by
+  simp [Dense.isMasked, h]
+
+/-- **the store on a tensor without mask, `v = true`**: the tensor is given a mask of its own (every bit clear), then bit `i`
+    is set: afterwards it is masked, bit `i` holds `true`, every other bit of the new mask `false`, elements untouched. -/
+theorem storeMaskBit_unmasked_set (s s' : St) (t t' : Dense) (i : Int) (hk : t.isMasked = false) (hw : t.win.len ≠ 0)
+    (h : storeMaskBit s t true i = .ok (s', t')) :
+    ∃ m, t' = { t with mask := some m } ∧ m.len = t.win.len ∧ t'.isMasked = true ∧ s'.heap = s.heap ∧
+      s'.mget m i = .ok true ∧ (∀ j : Nat, (j : Int) ≠ i → j < m.len → s'.mget m (j : Int) = .ok false) := by
+  simp only [storeMaskBit, hk, Bool.not_false, Bool.not_true, Bool.and_false, Bool.false_eq_true, if_false, if_true,
+    bind, Except.bind] at h
+  cases hmk : makeMask s t with
+  | error e => rw [hmk] at h; cases h
+  | ok p =>
+    obtain ⟨s1, t1⟩ := p
+    rw [hmk] at h
+    obtain ⟨m, ht1, hlen, hheap, hclear⟩ := makeMask_masked s s1 t t1 hw hmk
+    subst ht1
+    simp only [pure, Except.pure] at h
+    cases hs : s1.mset m i true with
+    | error e => rw [hs] at h; cases h
+    | ok s2 =>
+      rw [hs] at h
+      injection h with h; injection h with h1 h2
+      subst h1; subst h2
+      refine ⟨m, rfl, hlen, isMasked_withMask t m hlen, ?_, C15.St.mget_mset_same hs, ?_⟩
+      · obtain ⟨b, _, _, _, _, rfl⟩ := C15.St.mset_ok hs
+        exact hheap
+      · intro j hji hj
+        rw [C15.St.mget_mset_other hs hji]
+        exact hclear j hj
+
+/-- **SetMaskAt sets the named bit — unguarded** (with or without mask; F112 repaired: before, a tensor without mask
+    reported success and stayed unmasked). `t.win.len ≠ 0`: the tensor has data. -/
+theorem setMaskAt_sets (s s' : St) (t t' : Dense) (v : Bool) (c : List Int) (hw : t.win.len ≠ 0)
+    (h : setMaskAt s t v c = .ok (s', t')) : maskAt s' t' c = .ok v := by
+  by_cases hl : c.length = t.dims
+  · cases hi : ltoi t.shape t.strides c with
+    | error e => rw [setMaskAt_refuses_range s t v c e hl hi] at h; cases h
+    | ok i =>
+      cases hk : t.isMasked with
+      | true =>
+        cases hm : t.mask with
+        | none => simp [Dense.isMasked, hm] at hk; exact absurd hk hw
+        | some m =>
+          obtain ⟨ht, hset, _, _⟩ := setMaskAt_frame s s' t t' m v c i hm hk hl hi h
+          rw [ht]; exact hset
+      | false =>
+        have hl' : (c.length != t.dims) = false := by simp [hl]
+        simp only [setMaskAt, hl', hi, Bool.false_eq_true, if_false, bind, Except.bind] at h
+        cases v with
+        | false =>
+          rw [storeMaskBit_unmasked_clear s t i hk] at h
+          injection h with h; injection h with h1 h2
+          subst h1; subst h2
+          simp [maskAt, hk, pure, Except.pure]
+        | true =>
+          obtain ⟨m, ht', _, hk', _, hget, _⟩ := storeMaskBit_unmasked_set s s' t t' i hk hw h
+          have hm' : t'.mask = some m := by rw [ht']
+          have hd : t'.dims = t.dims := by rw [ht']; rfl
+          have hsh : t'.shape = t.shape := by rw [ht']; rfl
+          have hst : t'.strides = t.strides := by rw [ht']; rfl
+          simp [maskAt, hk', hm', hd, hsh, hst, hl, hi, bind, Except.bind, hget]
+  · obtain ⟨e, he⟩ := setMaskAt_refuses_arity s t v c hl
+    rw [he] at h; cases h
+
+/-- **SetMaskAtIndex sets the named bit — unguarded**: after a successful call the tensor is masked whenever `v = true`, and
+    position `i` of its mask window holds `v` (a tensor without mask and `v = false`: it stays without mask, nothing is masked). -/
+theorem setMaskAtIndex_sets (s s' : St) (t t' : Dense) (i : Int) (h : setMaskAtIndex s t true i = .ok (s', t')) :
+    ∃ m, t'.mask = some m ∧ t'.isMasked = true ∧ s'.mget m i = .ok true := by
+  unfold setMaskAtIndex at h
+  split at h
+  · cases h
+  · rename_i hr
+    have hw : t.win.len ≠ 0 := by
+      simp only [Bool.or_eq_true, decide_eq_true_eq, not_or] at hr
+      omega
+    cases hk : t.isMasked with
+    | true =>
+      cases hm : t.mask with
+      | none => simp [Dense.isMasked, hm] at hk; exact absurd hk hw
+      | some m =>
+        obtain ⟨ht, hs⟩ := storeMaskBit_masked_ok hm hk h
+        exact ⟨m, by rw [ht]; exact hm, by rw [ht]; exact hk, C15.St.mget_mset_same hs⟩
+    | false =>
+      obtain ⟨m, ht', _, hk', _, hget, _⟩ := storeMaskBit_unmasked_set s s' t t' i hk hw h
+      exact ⟨m, by rw [ht'], hk', hget⟩
+
+/-- a one-dimensional tensor of two cells without mask (the witness of F112) -/
+def unmaskedVec : Dense := { ap := { shape := [2], strides := [1], fin := true }, win := ⟨0, 0, 2, 2⟩, dt := "i" }
+
+-- the witness of F112: `SetMaskAt(true, 0)` on a tensor without mask makes the mask and sets the bit; a malformed position is refused
+example : ∃ s' t', setMaskAt { heap := #[#[Val.zero, Val.zero]] } unmaskedVec true [0] = .ok (s', t') ∧ t'.isMasked = true ∧
+    maskAt s' t' [0] = .ok true ∧ maskAt s' t' [1] = .ok false := ⟨_, _, rfl, rfl, rfl, rfl⟩
+example : ∃ e, setMaskAt {} unmaskedVec true [0, 0, 0] = .error (.err e) := ⟨_, rfl⟩
+example : ∃ e, setMaskAt {} unmaskedVec true [2] = .error (.err e) := ⟨_, rfl⟩
+example : ∃ e, setMaskAtIndex {} unmaskedVec false 2 = .error (.err e) := ⟨_, rfl⟩
+
+/-- a fold of mask writes of the same value `v`: every listed position reads `v` afterwards -/
+theorem foldlM_mset_get (m : Win) (v : Bool) (i : Int) :
+    ∀ (l : List Int) (s s' : St), l.foldlM (fun s j => s.mset m j v) s = .ok s' →
+      (i ∈ l ∨ s.mget m i = .ok v) → s'.mget m i = .ok v := by
+  intro l
+  induction l with
+  | nil =>
+    intro s s' h hi
+    simp only [List.foldlM_nil, pure, Except.pure] at h
+    injection h with h; subst h
+    rcases hi with hi | hi
+    · cases hi
+    · exact hi
+  | cons a l ih =>
+    intro s s' h hi
+    simp only [List.foldlM_cons, bind, Except.bind] at h
+    cases hf : s.mset m a v with
+    | error e => simp [hf] at h
+    | ok s1 =>
+      simp only [hf] at h
+      apply ih s1 s' h
+      by_cases hia : i = a
+      · subst hia; exact Or.inr (C15.St.mget_mset_same hf)
+      · rcases hi with hi | hi
+        · rcases List.mem_cons.mp hi with hi | hi
+          · exact absurd hi hia
+          · exact Or.inl hi
+        · exact Or.inr ((C15.St.mget_mset_other hf hia).trans hi)
+
+/-- … every position that is not listed, and every other mask buffer, keeps its value; the element storage is untouched -/
+theorem foldlM_mset_frame (m : Win) (v : Bool) (l : List Int) (s s' : St)
+    (h : l.foldlM (fun s j => s.mset m j v) s = .ok s') :
+    (∀ j, j ∉ l → s'.mget m j = s.mget m j) ∧ (∀ (m2 : Win) (j : Int), m2.buf ≠ m.buf → s'.mget m2 j = s.mget m2 j) ∧
+      s'.heap = s.heap := by
+  refine ⟨fun j hj => ?_, fun m2 j hb => ?_, ?_⟩
+  · refine foldlM_inv (fun s j => s.mset m j v) (fun x => x.mget m j = s.mget m j) l ?_ s s' h rfl
+    intro s1 a s2 ha hs hP
+    rw [← hP]
+    exact C15.St.mget_mset_other hs (fun hja => hj (hja ▸ ha))
+  · refine foldlM_inv (fun s j => s.mset m j v) (fun x => x.mget m2 j = s.mget m2 j) l ?_ s s' h rfl
+    intro s1 a s2 _ hs hP
+    rw [← hP]
+    exact C15.St.mget_mset_otherbuf hs hb
+  · refine foldlM_inv (fun s j => s.mset m j v) (fun x => x.heap = s.heap) l ?_ s s' h rfl
+    intro s1 a s2 _ hs hP
+    rw [← hP]; exact St.mset_heap hs
+
+theorem resetMask_masked_eq (s : St) (t : Dense) (m : Win) (val : Option Bool) (hm : t.mask = some m) (hk : t.isMasked = true) :
+    resetMask s t val = (t.resetMaskBits s m (val.getD false)).map (fun s' => (s', t)) := by
+  simp only [resetMask, hk, hm, Bool.not_true, Bool.false_eq_true, if_false, bind, Except.bind, pure, Except.pure]
+  cases t.resetMaskBits s m (val.getD false) <;> rfl
+
+/-- **ResetMask on a masked tensor — exactly the bits of the tensor's own elements (unguarded; F113 repaired).** The positions
+    written are `maskResetOffsets`: for a view or a pending transpose the storage offsets of the tensor's elements (its
+    iterator's offsets), otherwise the whole mask window, which is then as long as the data. Every such position holds the
+    fill value afterwards (`false` without argument); **every other position of the window** — on a view with gaps: the
+    parent's bits of cells outside the view — every other mask buffer, the tensor's metadata and the element storage are
+    untouched. -/
+theorem resetMask_frame (s s' : St) (t t' : Dense) (m : Win) (val : Option Bool)
     (hm : t.mask = some m) (hk : t.isMasked = true) (h : resetMask s t val = .ok (s', t')) :
-    t' = t ∧ (∀ i : Nat, i < m.len → s'.mget m (i : Int) = .ok (val.getD false)) ∧ s'.heap = s.heap := by
-  simp only [resetMask, hk, hm, Bool.not_true, Bool.false_eq_true, if_false, bind, Except.bind, pure, Except.pure] at h
-  cases h1 : memsetMask s m (val.getD false) with
+    t' = t ∧ (∀ i ∈ t.maskResetOffsets m, s'.mget m i = .ok (val.getD false)) ∧
+      (∀ j, j ∉ t.maskResetOffsets m → s'.mget m j = s.mget m j) ∧
+      (∀ (m2 : Win) (j : Int), m2.buf ≠ m.buf → s'.mget m2 j = s.mget m2 j) ∧ s'.heap = s.heap := by
+  rw [resetMask_masked_eq s t m val hm hk] at h
+  cases h1 : t.resetMaskBits s m (val.getD false) with
   | error e => rw [h1] at h; cases h
   | ok s1 =>
     rw [h1] at h
-    injection h with h
-    injection h with hs ht
-    subst hs; subst ht
-    refine ⟨rfl, ?_, ?_⟩
-    · intro i hi
-      rw [memsetMask_eq_writeMask] at h1
-      exact C15.writeMask_read s s1 m _ h1 (by simp) i _ (by simp [hi])
-    · rw [memsetMask_eq_writeMask] at h1
-      exact zip_foldlM_heap m _ s s1 h1
+    simp only [Except.map] at h
+    injection h with h; injection h with hs ht
+    subst hs
+    unfold Dense.resetMaskBits at h1
+    obtain ⟨f1, f2, f3⟩ := foldlM_mset_frame m _ _ s s1 h1
+    exact ⟨ht.symm, fun i hi => foldlM_mset_get m _ i _ s s1 h1 (Or.inl hi), f1, f2, f3⟩
+
+/-- a tensor that is neither a view nor lazily transposed: the whole mask window is filled (`memsetBools`) -/
+theorem resetMask_plain (s s' : St) (t t' : Dense) (m : Win) (val : Option Bool)
+    (hm : t.mask = some m) (hk : t.isMasked = true) (hv : t.isMaterializable = false)
+    (h : resetMask s t val = .ok (s', t')) (i : Nat) (hi : i < m.len) : s'.mget m (i : Int) = .ok (val.getD false) := by
+  refine (resetMask_frame s s' t t' m val hm hk h).2.1 (i : Int) ?_
+  simp only [Dense.maskResetOffsets, hv, Bool.false_eq_true, if_false, rangeI, List.mem_map, List.mem_range]
+  exact ⟨i, hi, rfl⟩
+
+/-- **ResetMask on a tensor without mask** (data present): the mask is made as long as the data window — also for a view
+    with gaps, which therefore becomes masked (the second half of F113) — and the bits of the elements hold the fill value. -/
+theorem resetMask_unmasked (s s' : St) (t t' : Dense) (val : Option Bool) (hk : t.isMasked = false) (hw : t.win.len ≠ 0)
+    (h : resetMask s t val = .ok (s', t')) :
+    ∃ m, t' = { t with mask := some m } ∧ t'.isMasked = true ∧ s'.heap = s.heap ∧
+      ∀ i ∈ t.maskResetOffsets m, s'.mget m i = .ok (val.getD false) := by
+  simp only [resetMask, hk, Bool.not_false, if_true, bind, Except.bind] at h
+  cases hmk : makeMask s t with
+  | error e => rw [hmk] at h; cases h
+  | ok p =>
+    obtain ⟨s1, t1⟩ := p
+    rw [hmk] at h
+    obtain ⟨m, ht1, hlen, hheap, _⟩ := makeMask_masked s s1 t t1 hw hmk
+    subst ht1
+    simp only [pure, Except.pure] at h
+    cases h1 : Dense.resetMaskBits s1 { t with mask := some m } m (val.getD false) with
+    | error e => rw [h1] at h; cases h
+    | ok s2 =>
+      rw [h1] at h
+      injection h with h; injection h with hs ht
+      subst hs; subst ht
+      unfold Dense.resetMaskBits at h1
+      obtain ⟨_, _, f3⟩ := foldlM_mset_frame m _ _ s1 s2 h1
+      exact ⟨m, rfl, isMasked_withMask t m hlen, by rw [f3, hheap], fun i hi => foldlM_mset_get m _ i _ s1 s2 h1 (Or.inl hi)⟩
 
 /-- a (2,2) view with gaps into a masked (3,3) tensor: window cells 0,1,3,4 are its elements, cell 2 is a gap
-    (witness of F113) -/
+    (the witness of F113) -/
 def gapView : Dense :=
   { ap := { shape := [2, 2], strides := [3, 1], fin := true, o := { nonContig := true } }, win := ⟨0, 4, 5, 5⟩, dt := "i",
     view := true, mask := some ⟨0, 4, 5, 5⟩ }
@@ -468,39 +709,15 @@ def gapState : St := { heap := #[Array.replicate 9 Val.zero], mheap := #[Array.r
 def isElemOffset (t : Dense) (j : Int) : Bool :=
   (allCoords t.shape).any (fun c => match ltoi t.shape t.strides c with | .ok i => i == j | .error _ => false)
 
-/-- **F113, guarded statement**: the bits `ResetMask` changes lie inside the tensor's own mask window — when every
-    window position is an element (no gaps: `¬ Excl_resetWindow`) these are exactly the tensor's elements. -/
-theorem resetMask_frame_partial (s s' : St) (t t' : Dense) (m m2 : Win) (val : Option Bool) (j : Int)
-    (hm : t.mask = some m) (hk : t.isMasked = true) (h : resetMask s t val = .ok (s', t'))
-    (hb : m2.buf ≠ m.buf) : s'.mget m2 j = s.mget m2 j := by
-  simp only [resetMask, hk, hm, Bool.not_true, Bool.false_eq_true, if_false, bind, Except.bind, pure, Except.pure] at h
-  cases h1 : memsetMask s m (val.getD false) with
-  | error e => rw [h1] at h; cases h
-  | ok s1 =>
-    rw [h1] at h
-    injection h with h
-    injection h with hs ht
-    subst hs
-    rw [memsetMask_eq_writeMask] at h1
-    unfold writeMask at h1
-    generalize (List.replicate m.len (val.getD false)).zip (rangeI m.len) = l at h1
-    induction l generalizing s with
-    | nil => simp only [List.foldlM_nil, pure, Except.pure] at h1; injection h1 with h1; rw [h1]
-    | cons p l ih =>
-      simp only [List.foldlM_cons, bind, Except.bind] at h1
-      cases h2 : s.mset m p.2 p.1 with
-      | error e => rw [h2] at h1; cases h1
-      | ok s2 =>
-        rw [h2] at h1
-        rw [ih s2 h1, C15.St.mget_mset_otherbuf h2 hb]
-
-/-- **F113, the unguarded statement is false**: "`ResetMask` changes only bits of the tensor's elements" fails on a view
-    with gaps — window position 2 of `gapView` is not the offset of any of its elements, yet its bit (the parent's bit of a
-    cell outside the view) is set. -/
-theorem resetMask_frame_full_fails :
-    ∃ (s s' : St) (t t' : Dense) (m : Win) (j : Int), t.mask = some m ∧ t.isMasked = true ∧
-      resetMask s t (some true) = .ok (s', t') ∧ isElemOffset t j = false ∧ s.mget m j = .ok false ∧ s'.mget m j = .ok true := by
-  refine ⟨gapState, _, gapView, _, ⟨0, 4, 5, 5⟩, 2, rfl, by decide, rfl, by decide, rfl, rfl⟩
+-- the witness of F113: `ResetMask(true)` on the view with gaps sets the bits of its four elements (window positions 0,1,3,4) and
+-- leaves window position 2 — the parent's bit of a cell outside the view — as it was
+example : gapView.maskResetOffsets ⟨0, 4, 5, 5⟩ = [0, 1, 3, 4] ∧ isElemOffset gapView 2 = false := by decide
+example : ∃ s' t', resetMask gapState gapView (some true) = .ok (s', t') ∧
+    s'.mget ⟨0, 4, 5, 5⟩ 2 = .ok false ∧ s'.mget ⟨0, 4, 5, 5⟩ 0 = .ok true ∧ s'.mget ⟨0, 4, 5, 5⟩ 1 = .ok true ∧
+    s'.mget ⟨0, 4, 5, 5⟩ 3 = .ok true ∧ s'.mget ⟨0, 4, 5, 5⟩ 4 = .ok true := ⟨_, _, rfl, rfl, rfl, rfl, rfl, rfl⟩
+-- the same view of a tensor without mask becomes masked
+example : ∃ s' t', resetMask { heap := #[Array.replicate 9 Val.zero] } { gapView with mask := none } (some true) = .ok (s', t') ∧
+    t'.isMasked = true ∧ maskAt s' t' [1, 1] = .ok true := ⟨_, _, rfl, rfl, rfl⟩
 
 /-! ## MaskFromSlice -/
 
@@ -536,10 +753,11 @@ theorem numLoop_set_entry (s s1 : St) (m : Win) (n i : Nat) (rest : List Bool) (
 
 /-! ## the constructor option WithMask -/
 
-/-- `makeMask` on a tensor that has no mask yet: a fresh window of the *shape's* size -/
-theorem makeMask_fresh (s : St) (t : Dense) (hm : t.mask = none) (hs : (totalSize t.shape).toNat ≠ 0) :
-    makeMask s t = .ok ((s.allocMask (Array.replicate (totalSize t.shape).toNat false)).1,
-      { t with mask := some ⟨s.mheap.size, 0, (totalSize t.shape).toNat, (totalSize t.shape).toNat⟩ }) := by
+/-- `makeMask` on a tensor that has no mask yet: a fresh, cleared window of `maskSize` entries — the length of the data
+    window once the data exists, the size of the shape before -/
+theorem makeMask_fresh (s : St) (t : Dense) (hm : t.mask = none) (hs : maskSize t ≠ 0) :
+    makeMask s t = .ok ((s.allocMask (Array.replicate (maskSize t) false)).1,
+      { t with mask := some ⟨s.mheap.size, 0, maskSize t, maskSize t⟩ }) := by
   simp [makeMask, hm, hs, St.allocMask, pure, Except.pure]
 
 /-- `MaskFromSlice` leaves the tensor's metadata as `makeMask` made it (the arms only write mask bits) -/
@@ -574,17 +792,28 @@ theorem maskFromSlice_meta (s s' : St) (t t' : Dense) (x : MaskSrc) (h : maskFro
       simp only [pure, Except.pure] at h
       injection h with h; injection h with _ h2; subst h2; exact ⟨s1, rfl⟩
 
-/-- **the size `WithMask` gives the mask**: the total size of the shape *known when the option runs* — 1 when no
-    `WithShape` preceded it (`Shape(nil).TotalSize() = 1`) — whatever the length of the slice. -/
-theorem withMask_mask_len (dt : String) (dims : Shape) (x : MaskSrc) (s s' : St) (c c' : ConsSt)
-    (hm : c.mask = none) (hs : (totalSize (c.shape.getD [])).toNat ≠ 0)
-    (h : consOpt dt dims (some x) s c 'M' = .ok (s', c')) :
-    ∃ w, c'.mask = some w ∧ w.len = (totalSize (c.shape.getD [])).toNat ∧ c'.shape = c.shape ∧ c'.hasData = c.hasData := by
+/-- the size of the mask `WithMask` makes on the half-built tensor: the number of cells of the backing once `WithBacking`
+    has run (`n`), else the total size of the shape known so far — 1 when no `WithShape` preceded it either
+    (`Shape(nil).TotalSize() = 1`) -/
+def consMaskSize (c : ConsSt) (n : Nat) : Nat :=
+  if c.hasData && n != 0 then n else (totalSize (c.shape.getD [])).toNat
+
+theorem consMaskSize_backing (c : ConsSt) (n : Nat) (hd : c.hasData = true) (hn : n ≠ 0) : consMaskSize c n = n := by
+  simp [consMaskSize, hd, hn]
+theorem consMaskSize_noBacking (c : ConsSt) (n : Nat) (hd : c.hasData = false) :
+    consMaskSize c n = (totalSize (c.shape.getD [])).toNat := by simp [consMaskSize, hd]
+
+/-- **the size `WithMask` gives the mask**: `consMaskSize` — fixed *when the option runs*, whatever the length of the slice. -/
+theorem withMask_mask_len (dt : String) (dims : Shape) (n : Nat) (x : MaskSrc) (s s' : St) (c c' : ConsSt)
+    (hm : c.mask = none) (hs : consMaskSize c n ≠ 0)
+    (h : consOpt dt dims n (some x) s c 'M' = .ok (s', c')) :
+    ∃ w, c'.mask = some w ∧ w.len = consMaskSize c n ∧ c'.shape = c.shape ∧ c'.hasData = c.hasData := by
   have e1 : ('M' == 'S') = false := by decide
   have e2 : ('M' == 'B') = false := by decide
   simp only [consOpt, e1, e2, Bool.false_eq_true, if_false, beq_self_eq_true, if_true, bind, Except.bind] at h
   cases hmf : maskFromSlice s
-      { ap := { shape := c.shape.getD [], strides := [], fin := false }, win := ⟨0, 0, 0, 0⟩, dt := dt, mask := c.mask } x with
+      { ap := { shape := c.shape.getD [], strides := [], fin := false }, win := ⟨0, 0, if c.hasData then n else 0, 0⟩,
+        dt := dt, mask := c.mask } x with
   | error e => rw [hmf] at h; cases h
   | ok p =>
     obtain ⟨s2, t2⟩ := p
@@ -592,15 +821,26 @@ theorem withMask_mask_len (dt : String) (dims : Shape) (x : MaskSrc) (s s' : St)
     simp only [pure, Except.pure] at h
     injection h with h; injection h with _ h2; subst h2
     obtain ⟨s1, hmk⟩ := maskFromSlice_meta _ _ _ _ _ hmf
-    rw [makeMask_fresh s _ hm (by simpa [Dense.shape] using hs)] at hmk
+    have hsz : maskSize
+        { ap := { shape := c.shape.getD [], strides := [], fin := false },
+          win := ⟨0, 0, if c.hasData then n else 0, 0⟩, dt := dt, mask := c.mask } = consMaskSize c n := by
+      cases hd : c.hasData <;> by_cases hn : n = 0 <;> simp [maskSize, consMaskSize, hd, hn, Dense.shape]
+    rw [makeMask_fresh s _ hm (by rw [hsz]; exact hs)] at hmk
     injection hmk with hmk; injection hmk with _ ht
     subst ht
-    exact ⟨_, rfl, rfl, rfl, rfl⟩
+    exact ⟨_, rfl, hsz, rfl, rfl⟩
 
 /-- `fix()` keeps a mask exactly when its length is the data length -/
 theorem consFix_mask (c : ConsSt) (n : Nat) (w : Win) (hm : c.mask = some w) :
     (consFix c n).2.2 = some (if w.len != (consFix c n).2.1 then { w with len := 0 } else w) := by
   simp [consFix, hm]
+
+/-- a mask of the backing's length survives `fix()` whatever is known about the shape (`WithBacking` before `WithMask`:
+    `withMask_mask_len` with `consMaskSize_backing`) -/
+theorem withMask_kept_backing (c : ConsSt) (n : Nat) (w : Win)
+    (hd : c.hasData = true) (hm : c.mask = some w) (hw : w.len = n) :
+    (consFix c n).2.2 = some w ∧ (consFix c n).2.1 = w.len := by
+  cases hsh : c.shape <;> simp [consFix, hsh, hd, hm, hw]
 
 /-- **F115, guarded statement**: when `WithShape` has run before `WithMask` (and the backing, if any, has as many cells
     as the shape), the mask survives `fix()`: its length is the data length. -/
@@ -613,10 +853,10 @@ theorem withMask_kept_partial (c : ConsSt) (n : Nat) (sh : Shape) (w : Win)
   | false => simp [consFix, hsh, hd, hm, hw, hse]
   | true => simp [consFix, hsh, hd, hm, hw, hn hd]
 
-/-- **F115, the unguarded statement is false**: the documented usage `New(WithBacking(b), WithMask(mask))` with a
-    `[]bool` of the backing's length builds a tensor *without* mask. -/
+/-- **F115, the unguarded statement is false**: `New(WithMask(mask), WithBacking(b))` — the option given before anything
+    tells a size — with a `[]bool` of the backing's length builds a tensor *without* mask. -/
 theorem withMask_kept_full_fails :
-    ∃ (s' : St) (t : Dense), consNew {} "f64" [6] 6 ((Array.range 6).map (fun i => Val.src 0 i)) ['B', 'M']
+    ∃ (s' : St) (t : Dense), consNew {} "f64" [6] 6 ((Array.range 6).map (fun i => Val.src 0 i)) ['M', 'B']
         (some (.bools [false, true, false, false, true, false])) = .ok (s', t) ∧ t.win.len = 6 ∧ t.isMasked = false := by
   refine ⟨_, _, rfl, rfl, rfl⟩
 
@@ -625,23 +865,53 @@ example : ∃ (s' : St) (t : Dense) (m : Win), consNew {} "f64" [2, 3] 6 ((Array
     (some (.bools [false, true, false, false, true, false])) = .ok (s', t) ∧ t.mask = some m ∧ t.isMasked = true ∧
     maskBits s' m = .ok [false, true, false, false, true, false] := ⟨_, _, _, rfl, rfl, rfl, rfl⟩
 
-/-- a non-bool mask given before the shape is known panics on its first non-zero entry behind position 0 -/
-example : ∃ e, consNew {} "f64" [6] 6 ((Array.range 6).map (fun i => Val.src 0 i)) ['B', 'M']
+/-- after `WithBacking` alone the mask is sized by the backing: masked, with the bits of the slice -/
+example : ∃ (s' : St) (t : Dense) (m : Win), consNew {} "f64" [6] 6 ((Array.range 6).map (fun i => Val.src 0 i)) ['B', 'M']
+    (some (.bools [false, true, false, false, true, false])) = .ok (s', t) ∧ t.mask = some m ∧ t.isMasked = true ∧
+    maskBits s' m = .ok [false, true, false, false, true, false] := ⟨_, _, _, rfl, rfl, rfl, rfl⟩
+
+/-- a non-bool mask given before anything tells a size panics on its first non-zero entry behind position 0 -/
+example : ∃ e, consNew {} "f64" [6] 6 ((Array.range 6).map (fun i => Val.src 0 i)) ['M', 'B']
     (some (.nums [false, true, false, false, true, false])) = .error (.panic e) := ⟨_, rfl⟩
 
 /-! ## MaskFromDense -/
 
-/-- F117: a scalar receiver without mask is never given one (`DataSize()` is 0 for scalars) -/
-theorem maskFromDense_scalar_noop (s s' : St) (objs : Array Dense) (self : Nat) (t t' : Dense) (tts : List (Option Nat))
-    (hsc : t.shape = []) (hm : t.mask = none) (h : maskFromDense s objs self t tts = .ok (s', t')) :
-    s' = s ∧ t' = t := by
+/-- **a receiver without mask is given one as soon as an operand is masked — unguarded: scalars included** (F117 repaired:
+    the mask used to be made only when `len(t.mask) < t.DataSize()`, and `DataSize()` is 0 for scalars). The new mask is as
+    long as the data window; the metadata is otherwise unchanged. -/
+theorem maskFromDense_makes_mask (s s' : St) (objs : Array Dense) (self : Nat) (t t' : Dense) (tts : List (Option Nat))
+    (hm : t.mask = none) (hw : t.win.len ≠ 0)
+    (hany : (tts.map (fun o => match o.bind (fun i => if i == self then some t else objs[i]?) with
+      | some d => d.isMasked | none => false)).any id = true)
+    (h : maskFromDense s objs self t tts = .ok (s', t')) :
+    ∃ m, t' = { t with mask := some m } ∧ m.len = t.win.len ∧ t'.isMasked = true := by
   unfold maskFromDense at h
   simp only [bind, Except.bind, pure, Except.pure] at h
   split at h
-  · injection h with h; injection h with h1 h2; exact ⟨h1.symm, h2.symm⟩
-  · have hds : dataSize t = 0 := by simp [dataSize, isScalar, hsc]
-    simp only [hm, hds, Nat.lt_irrefl, if_false] at h
-    injection h with h; injection h with h1 h2; exact ⟨h1.symm, h2.symm⟩
+  · rename_i hno
+    simp only [Bool.not_eq_true'] at hno
+    exact absurd (hany.symm.trans hno) (by decide)
+  · have hlt : 0 < t.win.len := Nat.pos_of_ne_zero hw
+    simp only [hm, hlt, if_true] at h
+    cases hmk : makeMask s t with
+    | error e => rw [hmk] at h; cases h
+    | ok p =>
+      obtain ⟨s1, t1⟩ := p
+      rw [hmk] at h
+      obtain ⟨m, ht1, hlen, _, _⟩ := makeMask_masked s s1 t t1 hw hmk
+      subst ht1
+      simp only at h
+      split at h
+      · cases h
+      · injection h with h; injection h with _ h2
+        exact ⟨m, h2.symm, hlen, by rw [← h2]; exact isMasked_withMask t m hlen⟩
+
+-- the witness of F117: a scalar receiver without mask, a masked scalar operand: the receiver becomes masked and its element is masked
+example : ∃ s' t', maskFromDense { heap := #[#[Val.zero], #[Val.zero]], mheap := #[#[true]] }
+      #[{ ap := { shape := [], strides := [], fin := true }, win := ⟨0, 0, 1, 1⟩, dt := "i16" },
+        { ap := { shape := [], strides := [], fin := true }, win := ⟨1, 0, 1, 1⟩, dt := "i16", mask := some ⟨0, 0, 1, 1⟩ }] 0
+      { ap := { shape := [], strides := [], fin := true }, win := ⟨0, 0, 1, 1⟩, dt := "i16" } [some 1] = .ok (s', t') ∧
+    t'.isMasked = true ∧ maskAt s' t' [] = .ok true := ⟨_, _, rfl, rfl, rfl⟩
 
 /-- without a masked operand nothing happens -/
 theorem maskFromDense_no_masked (s : St) (objs : Array Dense) (self : Nat) (t : Dense) :
@@ -752,11 +1022,12 @@ theorem engArgMasked_refuses_axis (st : St) (isMax : Bool) (vs : Nat) (t : Dense
   have h' : t.dt ∈ ordTypes := by simpa using h
   exact ⟨"dimMismatch", by simp [engArgMasked, hm, hk, h', ha, throwErr, bind, Except.bind]⟩
 
-/-- **the flat route runs the kernel over the raw window and the raw mask** (what F111 is about: on a contiguous row-major
-    tensor the raw window is the row-major listing, elsewhere it is not) -/
+/-- **the direct flat route** (contiguous row-major masked tensors, `flatArgNeedsIterator` false): the kernel runs over the
+    raw window and the raw mask, which there are the row-major listing of the elements and of their bits -/
 theorem engArgMasked_flat_kernel (st : St) (isMax : Bool) (vs : Nat) (t : Dense) (m : Win)
     (cells : List Val) (bits : List Bool) (ks : List Red.Key)
     (hm : t.mask = some m) (hk : t.isMasked = true) (hty : ordTypes.contains t.dt = true)
+    (hraw : flatMaskedViaIter t = false)
     (hc : t.rawCells st = .ok cells) (hb : maskBits st m = .ok bits)
     (hkeys : cells.mapM (Red.knownKey vs t.dt) = some ks) :
     engArgMasked st isMax vs t (-1) =
@@ -764,26 +1035,101 @@ theorem engArgMasked_flat_kernel (st : St) (isMax : Bool) (vs : Nat) (t : Dense)
                (Dense.fresh st "i" [] false #[Val.lit s!"k{argMaskedK isMax (Red.isFloatDt t.dt) ks bits}:i"]).2) := by
   have hty' : t.dt ∈ ordTypes := by simpa using hty
   have hd : ¬ ((-1 : Int) ≥ (t.dims : Int)) := by omega
-  simp [engArgMasked, hm, hk, hty', hd, hc, hb, hkeys, bind, Except.bind, pure, Except.pure]
+  simp [engArgMasked, hm, hk, hty', hd, hraw, hc, hb, hkeys, bind, Except.bind, pure, Except.pure]
 
-/-- **refinement on the main path**: for a masked tensor whose raw window is the row-major listing of its elements (contiguous
-    row-major: `cells` are the logical elements, `bits` the logical mask) and whose valid elements trigger no float early
-    return (no NaN, no infinity of the searched direction), flat `Argmax/Argmin` returns the index S names — the first index
-    of the extreme among the valid elements — and 0 where S is silent. -/
+/-- **the iterator flat route** (lazily transposed, non-contiguous or column-major masked tensors): one run of the kernel
+    over the elements and their own mask bits, both in iterator order — no storage index, no cell outside a view -/
+theorem engArgMasked_flat_iter (st : St) (isMax : Bool) (vs : Nat) (t : Dense) (m : Win)
+    (cells : List Val) (bits : List Bool) (ks : List Red.Key)
+    (hm : t.mask = some m) (hk : t.isMasked = true) (hty : ordTypes.contains t.dt = true)
+    (hvia : flatMaskedViaIter t = true)
+    (hc : t.offsets.mapM (fun i => st.get t.win i) = .ok cells)
+    (hb : t.offsets.mapM (fun i => st.mget m i) = .ok bits)
+    (hkeys : cells.mapM (Red.knownKey vs t.dt) = some ks) :
+    engArgMasked st isMax vs t (-1) =
+      .ok (.ok (Dense.fresh st "i" [] false
+                  #[Val.lit s!"k{(argIterMasked isMax (Red.isFloatDt t.dt) (totalSize t.shape).toNat ks bits).headD 0}:i"]).1
+               (Dense.fresh st "i" [] false
+                  #[Val.lit s!"k{(argIterMasked isMax (Red.isFloatDt t.dt) (totalSize t.shape).toNat ks bits).headD 0}:i"]).2) := by
+  have hty' : t.dt ∈ ordTypes := by simpa using hty
+  have hd : ¬ ((-1 : Int) ≥ (t.dims : Int)) := by omega
+  simp [engArgMasked, hm, hk, hty', hd, hvia, hc, hb, hkeys, bind, Except.bind, pure, Except.pure]
+
+theorem mapM_ok_length {β γ} (g : β → Res γ) : ∀ (l : List β) (es : List γ), l.mapM g = .ok es → es.length = l.length
+  | [], es, h => by
+    simp only [List.mapM_nil, pure, Except.pure] at h
+    injection h with h; subst h; rfl
+  | x :: xs, es, h => by
+    simp only [List.mapM_cons, bind, Except.bind, pure, Except.pure] at h
+    cases hx : g x with
+    | error e => rw [hx] at h; cases h
+    | ok v =>
+      rw [hx] at h
+      simp only at h
+      cases hxs : xs.mapM g with
+      | error e => rw [hxs] at h; cases h
+      | ok vs =>
+        rw [hxs] at h
+        injection h with h; subst h
+        simp [mapM_ok_length g xs vs hxs]
+
+theorem mapM_some_length {β γ} (g : β → Option γ) : ∀ (l : List β) (es : List γ), l.mapM g = some es → es.length = l.length
+  | [], es, h => by
+    simp only [List.mapM_nil, pure] at h
+    injection h with h; subst h; rfl
+  | x :: xs, es, h => by
+    simp only [List.mapM_cons, bind, Option.bind, pure] at h
+    cases hx : g x with
+    | none => rw [hx] at h; cases h
+    | some v =>
+      rw [hx] at h
+      simp only at h
+      cases hxs : xs.mapM g with
+      | none => rw [hxs] at h; cases h
+      | some vs =>
+        rw [hxs] at h
+        injection h with h; subst h
+        simp [mapM_some_length g xs vs hxs]
+
+/-- the listing flat `Argmax/Argmin` of a masked tensor search: storage offsets in reading order -/
+def flatMaskedOffsets (t : Dense) : List Int := if flatMaskedViaIter t then t.offsets else rangeI t.win.len
+
+/-- **flat Argmax/Argmin of a masked tensor = specification (F111 repaired: every layout).** `cells` / `bits` are the
+    elements and their mask bits in the order the route reads them — the raw window for a contiguous row-major tensor, the
+    iterator's (row-major logical) order for every other layout, where the iterator delivers as many elements as the shape
+    has. When no valid element triggers the float early return the result is the index S names — the first index of the
+    extreme among the valid elements, a position in that listing — and 0 where S is silent. -/
 theorem engArgMasked_flat_spec (st : St) (isMax : Bool) (vs : Nat) (t : Dense) (m : Win)
     (cells : List Val) (bits : List Bool) (ks : List Red.Key)
     (hm : t.mask = some m) (hk : t.isMasked = true) (hty : ordTypes.contains t.dt = true)
-    (hc : t.rawCells st = .ok cells) (hb : maskBits st m = .ok bits)
+    (hc : (flatMaskedOffsets t).mapM (fun i => st.get t.win i) = .ok cells)
+    (hb : (flatMaskedOffsets t).mapM (fun i => st.mget m i) = .ok bits)
     (hkeys : cells.mapM (Red.knownKey vs t.dt) = some ks)
+    (hsize : flatMaskedViaIter t = true → ks.length = (totalSize t.shape).toNat ∧ ks ≠ [])
     (hstop : ∀ p ∈ ks.zip bits, p.2 = false → stopK isMax (Red.isFloatDt t.dt) p.1 = false) :
     ∃ st' r, engArgMasked st isMax vs t (-1) = .ok (.ok st' r) ∧ r.shape = [] ∧
       r.rawCells st' = .ok [Val.lit s!"k{(specArgValid (betterK isMax) (ks.zip bits)).getD 0}:i"] := by
-  refine ⟨_, _, engArgMasked_flat_kernel st isMax vs t m cells bits ks hm hk hty hc hb hkeys, rfl, ?_⟩
-  have : argMaskedK isMax (Red.isFloatDt t.dt) ks bits = (specArgValid (betterK isMax) (ks.zip bits)).getD 0 :=
+  have hspec : argMaskedK isMax (Red.isFloatDt t.dt) ks bits = (specArgValid (betterK isMax) (ks.zip bits)).getD 0 :=
     argMaskedGo_eq_spec _ _ _ hstop
-  rw [this]
-  simp [Dense.fresh, Dense.rawCells, St.alloc, St.get, rangeI]
-  rfl
+  cases hvia : flatMaskedViaIter t with
+  | false =>
+    simp only [flatMaskedOffsets, hvia, Bool.false_eq_true, if_false] at hc hb
+    have hmw : m.len = t.win.len := by
+      simp only [Dense.isMasked, hm] at hk; simpa using hk
+    have hb' : maskBits st m = .ok bits := by unfold maskBits; rw [hmw]; exact hb
+    refine ⟨_, _, engArgMasked_flat_kernel st isMax vs t m cells bits ks hm hk hty hvia hc hb' hkeys, rfl, ?_⟩
+    rw [hspec]
+    simp [Dense.fresh, Dense.rawCells, St.alloc, St.get, rangeI]
+    rfl
+  | true =>
+    simp only [flatMaskedOffsets, hvia, if_true] at hc hb
+    obtain ⟨hlen, hne⟩ := hsize hvia
+    have hbl : bits.length = ks.length := by
+      rw [mapM_ok_length _ _ _ hb, mapM_some_length _ _ _ hkeys, mapM_ok_length _ _ _ hc]
+    refine ⟨_, _, engArgMasked_flat_iter st isMax vs t m cells bits ks hm hk hty hvia hc hb hkeys, rfl, ?_⟩
+    rw [← hlen, argIterMasked_single_lane isMax _ ks bits hne hbl, List.headD_cons, hspec]
+    simp [Dense.fresh, Dense.rawCells, St.alloc, St.get, rangeI]
+    rfl
 
 /-- tensors without mask take the route of C08 -/
 theorem engArgMasked_unmasked (st : St) (isMax : Bool) (vs : Nat) (t : Dense) (axis : Int) (hk : t.isMasked = false) :
@@ -806,11 +1152,20 @@ example : argMaskedK true true [.num 1, .num Red.infKey, .num 7] [false, false, 
     argMaskedK true true [.nan, .num 2] [true, false] = 1 ∧ argMaskedK false true [.num 2, .nan, .num 1] [false, false, false] = 1 := by decide
 -- strings
 example : argMaskedK false false [.str "s2", .str "s10", .str "s1"] [false, false, true] = 1 := by decide
--- F110: (2,2) rows [1,2],[5,3] with mask rows [0,1],[1,0]: the code judges both rows by [0,1]
-example : argIterMasked true false 2 [.num 1, .num 2, .num 5, .num 3] [false, true, true, false] = [0, 0] ∧
-    argIterMaskedIntended true false 2 [.num 1, .num 2, .num 5, .num 3] [false, true, true, false] = [0, 1] := by decide
--- the guard of `argIterMasked_partial` is satisfiable with more than one lane
-example : laneChunks 2 [false, true, false, true] = (Red.argChunks 2 [.num 1, .num 2, .num 5, .num 3]).map (fun _ => [false, true, false, true].take 2) := by decide
+-- (2,2) rows [1,2],[5,3] with mask rows [0,1],[1,0]: every row is judged by its own bits (the witness of F110)
+example : argIterMasked true false 2 [.num 1, .num 2, .num 5, .num 3] [false, true, true, false] = [0, 1] := by decide
+-- the hypothesis of `argIterMasked_eq_spec` is satisfiable with more than one lane, and the specification names the same indices
+example : (∀ q ∈ (Red.argChunks 2 [.num 1, .num 2, .num 5, .num 3]).zip (laneChunks 2 [false, true, true, false]),
+      ∀ p ∈ q.1.zip q.2, p.2 = false → stopK true false p.1 = false) ∧
+    List.zipWith (fun lane bits => (specArgValid (betterK true) (lane.zip bits)).getD 0)
+      (Red.argChunks 2 [.num 1, .num 2, .num 5, .num 3]) (laneChunks 2 [false, true, true, false]) = [0, 1] := by decide
+-- the witness of F111: (2,3) elements 1..6, element (1,2) masked, lazily transposed: the flat route goes through the iterator
+-- (listing 1,4,2,5,3,6 with the bit on the last entry) and answers the row-major position 3 of the 5, not its storage index 4
+example : flatMaskedViaIter
+    { ap := { shape := [3, 2], strides := [1, 3], fin := true }, old := some { shape := [2, 3], strides := [3, 1], fin := true },
+      win := ⟨0, 0, 6, 6⟩, dt := "i16", mask := some ⟨0, 0, 6, 6⟩ } = true := by decide
+example : (argIterMasked true false 6 [.num 1, .num 4, .num 2, .num 5, .num 3, .num 6] [false, false, false, false, false, true]).headD 0 = 3 ∧
+    argMaskedK true false [.num 1, .num 2, .num 3, .num 4, .num 5, .num 6] [false, false, false, false, false, true] = 4 := by decide
 example : StrictWeak (fun a b : Int => decide (a > b)) := strictWeak_int_gt
 
 end TM.C15ops
